@@ -10,6 +10,40 @@ import base64, random, re
 U32 = 4294967295
 CONFIGURED = [("log", "info"), ("log", "warn"), ("log", "error"), ("log", "debug"), ("log", "trace")]
 MACROS_ARG = ",".join("%s=%s" % m for m in CONFIGURED)
+# configured macro sets the campaigns rotate through (the first is the default)
+CONFIG_SETS = [
+    CONFIGURED,
+    [("log", "info"), ("tracing", "info")],                       # one name, two module paths
+    [("tracing", "info"), ("log", "info"), ("log", "warn")],
+    [("slog", "info"), ("slog", "warn")],                         # log::info is then a decoy
+    [("app::telemetry", "log_event"), ("log", "error")],          # multi-segment module path
+    [("log", "info")],
+]
+
+
+def macros_arg(configured):
+    return ",".join("%s=%s" % m for m in configured)
+
+
+def names_of_interest(configured):
+    return {n for _, n in configured} | {"%s::%s" % (m, n) for m, n in configured}
+
+
+def decoy_names(configured):
+    """Names that must NOT count: other names, configured names as mere prefix / suffix, other module
+    paths (incl. proper suffixes and extensions of the configured path), other letter case."""
+    ok = names_of_interest(configured)
+    out = set(DECOY_MACROS)
+    for m, n in configured:
+        full = "%s::%s" % (m, n)
+        for i in range(1, len(full)):
+            suf = full[i:]
+            if suf.startswith(":") or not (suf[0].isalpha() or suf[0] == "_"):
+                continue
+            out.add(suf)
+        out |= {"x" + n, n + "x", n + "_", "_" + n, "x" + full, "other::" + n, m + "x::" + n, "x::" + full,
+                n.upper(), n.capitalize(), m.capitalize() + "::" + n, m + "::" + n + "2", "a::" + n, "_::" + n}
+    return sorted(x for x in out if x not in ok)
 
 
 def b64(b):
@@ -120,10 +154,10 @@ class Out:
         return "".join(self.parts)
 
 
-def gen_stmt(rng, structured, rich, opts=None):
+def gen_stmt(rng, structured, rich, opts=None, configured=None):
     """Returns a dict describing one statement in canonical form (not yet rendered)."""
     opts = opts or {}
-    mod, name = rng.choice(CONFIGURED)
+    mod, name = rng.choice(configured or CONFIGURED)
     st = {"qualified": rng.random() < 0.35, "module": mod, "name": name}
     st["target"] = rng.choice([None, None, None, "tgt", "a::b", "with space", "x\\\"y", "//t", ""]) \
         if opts.get("target", True) else None
@@ -233,8 +267,10 @@ def render_stmt(out, st, rng, structured, rich, no_kvp, ignored):
             "kind": "String", "usable": True, "name": short, "probe": "[ref: 7] "}, stmt_line
 
 
-def cfl_file(rng, structured, rich=True, n_items=None, features=None):
+def cfl_file(rng, structured, rich=True, n_items=None, features=None, configured=None):
     """Returns (bytes, expected entries, description).  features: set of item kinds to draw from."""
+    configured = configured or CONFIGURED
+    decoys = decoy_names(configured)
     feats = features or {"plain", "comment", "strlit", "decoy", "stmt", "directive", "blank"}
     out = Out()
     expected = []
@@ -260,7 +296,7 @@ def cfl_file(rng, structured, rich=True, n_items=None, features=None):
             out.add(indent)
             first_line = out.line
             for k in range(rng.choice([1, 1, 1, 2])):
-                st = gen_stmt(rng, structured, rich)
+                st = gen_stmt(rng, structured, rich, configured=configured)
                 if k > 0:
                     st["prefix"] = " "
                     if out.line != first_line:
@@ -281,13 +317,14 @@ def cfl_file(rng, structured, rich=True, n_items=None, features=None):
                                "target: \\\"t\\\"", "café", "log::info!(\\\"q\\\", 1)"])
             out.add(indent + 'let s = "%s";' % body + nl)
         elif kind == "decoy":
-            m = rng.choice(DECOY_MACROS)
+            m = rng.choice(decoys)
             form = rng.random()
             if form < 0.6:
                 out.add(indent + '%s!("decoy %s");' % (m, rng.choice(["a", "{}", "[ref: 3] x"])) + nl)
             else:
                 # a configured name without a literal message
-                name = rng.choice(["info", "log::warn", "error"])
+                cm, cn = rng.choice(configured)
+                name = rng.choice([cn, "%s::%s" % (cm, cn)])
                 out.add(indent + "%s!(%s);" % (name, rng.choice(["msg", "format!(fmt)", "&s", "x, y", "CONST", "", "1"])) + nl)
         pending = None
     if rng.random() < 0.2:
@@ -298,6 +335,19 @@ def cfl_file(rng, structured, rich=True, n_items=None, features=None):
 
 def cfl_files(rng, n, structured):
     return [cfl_file(rng, structured, rich=rng.random() < 0.7)[0] for _ in range(n)]
+
+
+def multibyte_window_files():
+    """Statements placed after long runs of multi-byte text, at every alignment: a slice taken a fixed
+    number of bytes before a statement must still fall on a character boundary."""
+    out = []
+    for ch, reps in (("é", 40000), ("語", 30000), ("\U0001F600", 20000)):
+        for pad in range(0, len(ch.encode("utf-8"))):
+            body = "x" * pad + "// " + ch * reps + "\n"
+            out.append((body + "fn f() { info!(\"after %d\"); }\n" % pad + "/* " + ch * 1500 + " */ warn!(\"w\");\n").encode("utf-8"))
+    for n in (1000, 1366, 2731, 4093, 4096, 8190):
+        out.append(("/* " + "語" * n + " */\ninfo!(\"a\");\n" + "// " + "é" * n + "\nüber(); error!(\"b\");\n").encode("utf-8"))
+    return out
 
 
 # ---- the malformed stream -----------------------------------------------------------------------
